@@ -8,6 +8,7 @@
 package c02
 
 import (
+	"bytes"
 	"fmt"
 	"io"
 	"testing"
@@ -54,6 +55,7 @@ func gen(g *kernel.Rng, seed uint64, tier string) *kernel.Plan {
 	p.Cfg["form"] = int64(g.Intn(3))
 	p.Cfg["bad"] = int64(g.Pick(60, 8, 8, 8, 8, 5))
 	p.Cfg["eofdata"] = int64(g.Pick(2, 1))
+	p.Cfg["relay"] = int64(g.Pick(2, 1)) // the endpoint forwards what it reads (a relay), on the same Protocol object
 	p.Cfg["badAt"] = int64(g.Range(0, 12))
 	p.Cfg["badH"] = int64(g.Range(1, 3))
 	budget := int64(70000)
@@ -387,11 +389,18 @@ func run(p *kernel.Plan) (res *kernel.Result) {
 	pipe.EOFData = p.C("eofdata") != 0
 	pipe.Write(t.bytes)
 	pipe.CloseWrite()
+	relay := p.C("relay") != 0
+	var out bytes.Buffer
+	var outw io.Writer = io.Discard
+	if relay {
+		outw = &out
+	}
 	proto := rtmp.NewProtocol(struct {
 		io.Reader
 		io.Writer
-	}{pipe, io.Discard})
+	}{pipe, outw})
 	var got []rtmpx.Msg
+	var fwd []rtmpx.Msg // what the relay wrote, as the downstream peer has to read it
 	var rerr error
 	for {
 		m, err := proto.ReadMessage()
@@ -403,6 +412,36 @@ func run(p *kernel.Plan) (res *kernel.Result) {
 			return res.Fail("C02/nil-message", "ReadMessage returned (nil, nil)")
 		}
 		got = append(got, rtmpx.FromLib(m))
+		if relay && m.MessageType > 6 && len(m.Payload) > 0 {
+			// forward it: untouched, one byte shorter or one byte longer (a relay
+			// that strips or adds something); now and then it announces another
+			// chunk size for its own output first
+			if tape.Next(8) == 0 {
+				sc := rtmp.NewSetChunkSize()
+				sc.ChunkSize = uint32([]int{1, 64, 128, 1000, 70000}[tape.Next(5)])
+				if err := proto.WritePacket(sc, 0); err != nil {
+					return res.Fail("C02/relay-write-error", "Set Chunk Size: %v", err)
+				}
+				b, _ := sc.MarshalBinary()
+				fwd = append(fwd, rtmpx.Msg{Type: 1, Payload: b})
+			}
+			w := rtmpx.FromLib(m)
+			w.Payload = append([]byte(nil), m.Payload...)
+			switch tape.Next(4) {
+			case 1:
+				if len(m.Payload) > 1 {
+					m.Payload = m.Payload[:len(m.Payload)-1]
+					w.Payload = w.Payload[:len(w.Payload)-1]
+				}
+			case 2:
+				m.Payload = append(m.Payload, 0x5a)
+				w.Payload = append(w.Payload, 0x5a)
+			}
+			if err := proto.WriteMessage(m); err != nil {
+				return res.Fail("C02/relay-write-error", "WriteMessage: %v", err)
+			}
+			fwd = append(fwd, w)
+		}
 		if len(got) > len(t.expect)+5 {
 			break
 		}
@@ -466,6 +505,23 @@ func run(p *kernel.Plan) (res *kernel.Result) {
 		}
 		return res.Fail(fmt.Sprintf("%s:cs%s", k, csClass(e.CSID)), "%d messages chunked, %d decoded, then: %v; next expected on chunk stream %d: type %d len %d", len(t.expect), len(got), rerr, e.CSID, e.Type, len(e.Payload))
 	}
+	if relay {
+		cp := ref.NewChunkParser()
+		cp.Feed(out.Bytes())
+		if cp.Err != nil || cp.Pending() != 0 || cp.OpenMessages() != 0 {
+			return res.Fail("C02/relay-wire-nonconformant", "what the relay wrote does not parse: err=%v pending=%d open=%d after %d of %d forwarded messages", cp.Err, cp.Pending(), cp.OpenMessages(), len(cp.Msgs), len(fwd))
+		}
+		if len(cp.Msgs) != len(fwd) {
+			return res.Fail("C02/relay-count", "the relay forwarded %d messages, its wire holds %d", len(fwd), len(cp.Msgs))
+		}
+		for i, m := range cp.Msgs {
+			g := rtmpx.Msg{Type: m.Type, SID: m.StreamID, TS: m.Timestamp & 0x7fffffff, Payload: m.Payload}
+			if d := fwd[i].Diff(g); d != "" {
+				return res.Fail("C02/relay-mismatch-"+d, "forwarded message %d: handed to WriteMessage as %v, on the wire as %v (chunk stream %d)", i, fwd[i], g, m.CSID)
+			}
+		}
+		res.Stat("messages_forwarded_by_the_relay", int64(len(fwd)))
+	}
 	if c := oe.Cause(rerr); c != io.EOF && c != io.ErrUnexpectedEOF {
 		return res.Fail("C02/end-error", "after the last message the reader ended with %v, want root cause io.EOF", rerr)
 	}
@@ -492,6 +548,8 @@ var Check = &kernel.Check{
 		return map[string]*kernel.Plan{
 			"csid-320-3byte":  mk(map[string]int64{"cs1": 320}, kernel.Op{K: "m", T: 1, N: []int64{9, 1, 0, 2, 1, 0}}),
 			"csid-64-3byte":   mk(map[string]int64{"cs1": 64, "form": 1}, kernel.Op{K: "m", T: 1, N: []int64{9, 1, 0, 2, 1, 0}}),
+			// fixed: a relayed message from chunk stream 65 was written with id 65&0x3f
+			"relay-high-chunk-stream": mk(map[string]int64{"cs2": 65, "relay": 1}, kernel.Op{K: "m", T: 2, N: []int64{7, -1, 0, 1, 0, 0}}),
 			"librtmp-ping":    mk(map[string]int64{"bad": 4}, kernel.Op{K: "m", T: 1, N: []int64{9, 1, 0, 2, 1, 0}}),
 			"type1-ext-delta": mk(map[string]int64{}, kernel.Op{K: "m", T: 1, N: []int64{9, 1, 10, 2, 1, 0}}, kernel.Op{K: "m", T: 1, N: []int64{9, 1, 10 + 0x1000000, 3, 2, 1}}),
 			"type3-after-ext": mk(map[string]int64{}, kernel.Op{K: "m", T: 1, N: []int64{9, 1, 0x1000000, 2, 1, 0}}, kernel.Op{K: "m", T: 1, N: []int64{9, 1, 0x2000000, 2, 2, 3}}),
